@@ -338,6 +338,10 @@ class MinGenSet():
                     "solve_time": time.perf_counter() - start_time,
                     "status": self.solver.get_model_status(),
                 }
+                if self.solver.get_model_status() != sw.SolverWrapper.infeasible_status:
+                    # Any status other than infeasible (e.g. a time limit) is inconclusive for this k:
+                    # we cannot skip to a larger k, as the result would not be a minimum generating set.
+                    return False
         return False
 
     def is_solved(self):
